@@ -282,6 +282,9 @@ func runTornSeekCase(o *hx.Out, f *hx.Flags, k int, kind string, viaPrivate bool
 	}
 	defer w.close()
 	o.Case(k)
+	if noSplit {
+		return
+	}
 	setContract(5, 6, 0x70)
 	p := newPause(w.nodes[0].st)
 	d := dao.NewSimple(p, false)
